@@ -38,7 +38,7 @@ FIELDS = ["a", "b", "c"]
 
 
 def budget(tier):
-    return dict(examples=50, seconds=40) if tier == "quick" else dict(examples=500, seconds=440)
+    return dict(examples=45, seconds=25) if tier == "quick" else dict(examples=400, seconds=300)
 
 
 # ------------------------------------------------------------------------------------------------ generation
